@@ -77,6 +77,11 @@ CHECKS = {
     technique="SMT translation validation of the orbital-energy fraction algebra: input and actual output of each real operation encoded over symbolic orbital energies and tensor entries; two-stage decision (free inverse-bracket unknowns, then denominators cleared per outer monomial) by z3",
     text="split/rebuild, canonicalize_sign, permute_num, cancel_orb_energy_frac, factor_eri_parts, factor_denom, symbolic<->explicit denominators (both directions), diagonalize_fock (diagonal Fock model), block_diagonalize_fock (block-diagonal model) on generated terms with 1-3 brackets (powers <=2) and rational numerators.",
     note="Models <=2o2v; brackets of >=2 energies; documented refusals give no verdict. Stage 2 assumes non-vanishing brackets."),
+ "C16": dict(
+    level=TV, design="2/C16", engine="tvsmt",
+    technique="the scheme returned by the real optimize_contractions / unoptimized_contraction is interpreted step by step by the harness and its result compared with the term's value by z3 (symbolic tensor entries, all target assignments); use-once, sum-once, limits, reported scaling and the scaling bound are direct checks; CrossHair on _split_contracted_and_target and _group_objects with symbolic index layouts",
+    text="Generated terms with 2-4 tensors (deltas, symbols, exponents, traces, outer products, hyper-contractions), random requested target order, seven limit settings.",
+    note="Models <=2o2v. An intermediate that already carries exactly the indices of the final result is exempt from max_itmd_dim (as the code documents). CrossHair: 3 objects x 2 indices over 3 ids (thorough 4)."),
 }
 NA_REASON = "check not built yet in this round (planned, see DESIGN.md section 2)"
 
